@@ -68,15 +68,19 @@ func (b *googleBreaker) doReq(req func() error, fallback func(err error) error, 
 		return err
 	}
 
+	// 不以 recover() 的返回值判断是否 panic：panic(nil) 与 runtime.Goexit 时它返回 nil。
+	// 未正常结束的调用一律记为失败，且不拦截 panic，让它继续向调用者传播。
+	finished := false
 	defer func() {
-		if e := recover(); e != nil {
+		if !finished {
 			b.markFailure()
-			panic(e)
 		}
 	}()
 
 	err := req()
-	if acceptable(err) {
+	ok := acceptable(err)
+	finished = true
+	if ok {
 		b.markSuccess()
 	} else {
 		b.markFailure()
